@@ -61,8 +61,6 @@ Definition regex_model_ok (c : regex_case) : bool :=
 Definition fails_expected (c : regex_case) : bool :=
   negb (rc_decodes c) || (rc_sast c && match rc_results c with None => true | Some _ => false end).
 Definition no_opinion (c : regex_case) : bool := fails_expected c.
-Definition targets (c : regex_case) : N -> bool :=
-  if rc_sast c then sast_targets (match rc_results c with Some rs => rs | None => [] end) else all_lines.
 Definition on_obs (c : regex_case) (f : bool -> option (str * list change) * str * list unfixed * bool -> bool) : bool :=
   no_opinion c ||
   match rc_real c, rc_dry c with
@@ -70,14 +68,30 @@ Definition on_obs (c : regex_case) (f : bool -> option (str * list change) * str
   | _, _ => false
   end.
 
-(** file bytes: untargeted lines identical, targeted lines substituted, dry-run writes nothing *)
+(** The non-SAST class has one reading (every line is a target, the targets that change are the lines the pattern
+    matches): its file content is judged exactly.  The SAST class is judged by the property's words: the updated lines
+    [_apply] produced (first entry of rc_diffs, an observation) must be an admissible update w.r.t. the lines that
+    carry a finding of the results handed in; which of them are edited is the model's business (regex_model_ok). *)
+Definition handed (c : regex_case) : list result := match rc_results c with Some rs => rs | None => [] end.
+Definition cand (c : regex_case) : N -> bool := if rc_sast c then carries (handed c) else all_lines.
+Definition obs_updated (c : regex_case) : list str :=
+  if rc_sast c then match rc_diffs c with (u, _) :: _ => u | [] => rc_lines c end
+  else spec_updated (sub_of (rc_graph c)) all_lines (rc_lines c).
+
+(** file bytes: non-candidate lines identical, edited lines substituted, dry-run / no change writes nothing *)
 Definition regex_spec_file_ok (c : regex_case) : bool :=
-  on_obs c (fun dry o => let '(_, file, _, _) := o in str_eqb file (spec_file (sub_of (rc_graph c)) (targets c) dry (rc_lines c))).
+  on_obs c (fun dry o =>
+    let '(ret, file, _, _) := o in
+    match ret with
+    | None => str_eqb file (concat (rc_lines c))
+    | Some _ => str_eqb file (concat (if dry then rc_lines c else obs_updated c)) &&
+                admissible (sub_of (rc_graph c)) (cand c) (rc_lines c) (obs_updated c)
+    end).
 (** None iff no edit; one change per edit, numbered, in order; diff = create_diff(original, updated) *)
 Definition regex_spec_changes_ok (c : regex_case) : bool :=
   on_obs c (fun dry o =>
     let '(ret, _, _, _) := o in
-    let upd := spec_updated (sub_of (rc_graph c)) (targets c) (rc_lines c) in
+    let upd := obs_updated c in
     match edited_lines (rc_lines c) upd, ret with
     | [], None => true
     | (_ :: _) as e, Some (d, chs) => list_eqb N.eqb (map c_line chs) e && option_eqb str_eqb (diff_of (rc_diffs c) (rc_lines c) upd) (Some d)
@@ -91,19 +105,20 @@ Definition regex_spec_findings_ok (c : regex_case) : bool :=
     | None => true
     | Some (_, chs) => forallb (fun ch => list_eqb N.eqb (c_findings ch) (findings_for_location (rc_fc c) (c_line ch))) chs
     end).
-(** SAST: targeted lines left unchanged are reported unfixed with their findings; the other class reports none *)
+(** an unfixed finding is reported for a candidate line that was not edited, and is a finding of that line
+    (which unedited candidate lines are reported is the model's business) *)
 Definition regex_spec_unfixed_ok (c : regex_case) : bool :=
   on_obs c (fun dry o =>
     let '(_, _, unf, _) := o in
-    list_eqb unfixed_eqb unf
-      (if rc_sast c then spec_unfixed (sub_of (rc_graph c)) (rc_fc c) (targets c) (rc_lines c) else [])).
+    forallb (fun u => cand c (snd u) && negb (mem_N (snd u) (edited_lines (rc_lines c) (obs_updated c))) &&
+                      mem_N (fst u) (findings_for_location (rc_fc c) (snd u))) unf).
 
 (** nothing escapes apply(): a file that cannot be read or transformed is a recorded failure, left untouched, with
     every finding of the file reported unfixed at line 0; any other file is processed without a failure *)
 Definition regex_spec_isolation_ok (c : regex_case) : bool :=
   let ok (o : obs) :=
     match o with
-    | None => false
+    | None => negb (fails_expected c)    (* an exception on a good file is a model mismatch (tie break), not judged here *)
     | Some (ret, file, unf, failed) =>
         if fails_expected c
         then match ret with None => true | Some _ => false end && str_eqb file (rc_raw c) && failed &&
